@@ -135,6 +135,7 @@ Theorem c04_move_and_swap_source_facts : (forall c, move_ctor_delegate_arg c = c
   (swap_meta = 1 /\ swap_constructor = 1 /\ swap_block_table = 1 /\ swap_retire_list = 1 /\ move_assign_swaps = 1) /\
   (forall c, create_block_constructs c = negb (c =? 0)).
 Proof. exact (conj cvo_move_delegates_a_copy (conj cvo_swap_all_members cvo_create_block_test)). Qed.
+Print Assumptions c04_move_and_swap_source_facts.
 
 (* which clock retire()/gc() stamp with: the regenerated clock id names a MONOTONIC clock, so the stamp source is elapsed
    time whatever an adversary does to the calendar clock (client op OStep d: wall clock stepped by d seconds, forward or
